@@ -601,3 +601,9 @@ def coq_equation(c, mr):
     if op == "txout" and len(a[1]) <= 300:
         return "c11_txout %s %s = %s" % (_z(a[0]), coq_bytes(a[1]), coq_result(mr, coq_bytes))
     return None
+
+
+# ops whose answer must not depend on the concrete bytes-like type of their arguments (they agree on the pinned tree;
+# tools/bytearray_probe.py); common.py re-runs a sample of their cases with bytearray arguments
+BYTEARRAY_OPS = {'wm_tx_float', 'wm_tx_spec', 'wm_tx', 'outpoint', 'txout', 'witness_digest', 'wm_raw', 'wm_tx_named', 'txin'}
+MEMORYVIEW_OPS = {'witness_digest', 'wm_tx_float', 'txout', 'wm_tx_spec', 'wm_tx_named', 'wm_tx', 'wm_raw'}
